@@ -15,7 +15,7 @@
            mprocess-element-choi-from-var-last-outcome) *)
 From Coq Require Import Arith List Bool ZArith QArith Qcanon.
 From QV.Core Require Import OF Sums Mat Cplx QcOF C01_HermPsd.
-From QV.Model Require Import QObj C11_Pgdb C11_Cvx.
+From QV.Model Require Import QObj C02_Conv C11_Pgdb C11_Cvx.
 From QV.Proofs Require Import C11_Pgdb C11_Metric C11_PovmMetric C11_Diameter C11_Cvx C11_Examples.
 Import ListNotations.
 
@@ -112,7 +112,7 @@ Print Assumptions C11_universal_gap_ball.
 
 (* A5y  the FULL universal gap for state tomography (full parametrisation; basis orthonormal + Hermitian): the physical set is
    { v | op_of_vec v PSD, trace one };  NO state has a loss below  f x + <g,y> - mu r  whenever r >= 0, r^2 >= 4 |y|^2.
-   (POVMs / gates: A5x with R2 = d^2; their norm bounds are not instantiated here, so A5u stays the general _partial form.) *)
+   (POVMs / gates: A5z, A5z'.  A5u is kept as the general form with the diameter as hypothesis.) *)
 Theorem C11_universal_gap_states : forall (F : OF) (d : nat) (B : nat -> cmat F) (P : @vec F -> @vec F)
     (f : @vec F -> F) (g : @vec F -> @vec F) (mu : F),
   basis_orthonormal d B -> basis_hermitian d B ->
@@ -123,6 +123,42 @@ Theorem C11_universal_gap_states : forall (F : OF) (d : nat) (B : nat -> cmat F)
   forall z, C11_state_set F d B z -> kle F (csub F (f x) (f z)) (cadd F (copp F (dot (d * d) (g x) y)) (cmul F mu r)).
 Proof. exact C11_Diameter.C11_universal_gap_states. Qed.
 Print Assumptions C11_universal_gap_states.
+
+(* A5z  the FULL universal gap for POVM tomography (full parametrisation: m stacked coefficient vectors; every element PSD, the traces
+   sum to dd -- dd = d for elements summing to the identity): no physical POVM gains more than -<g,y> + mu r, r^2 >= 4 dd^2 |y|^2 *)
+Theorem C11_universal_gap_povms : forall (F : OF) (d m : nat) (B : nat -> cmat F) (dd : F) (P : @vec F -> @vec F)
+    (f : @vec F -> F) (g : @vec F -> @vec F) (mu : F),
+  basis_orthonormal d B -> basis_hermitian d B ->
+  mu <> c0 F -> kle F (c0 F) mu -> C11_obtuse F (m * (d * d)) (C11_povm_set F d m B dd) P -> C11_first_order_convex F (m * (d * d)) f g ->
+  forall (x : @vec F) (r : F), let y := C11_dir F P g mu x in
+  kle F (c0 F) r ->
+  kle F (cmul F (C11_nrm2 F (m * (d * d)) y)
+          (cadd F (cmul F (cadd F (c1 F) (c1 F)) (cmul F dd dd)) (cmul F (cadd F (c1 F) (c1 F)) (cmul F dd dd)))) (cmul F r r) ->
+  forall z, C11_povm_set F d m B dd z -> kle F (csub F (f x) (f z)) (cadd F (copp F (dot (m * (d * d)) (g x) y)) (cmul F mu r)).
+Proof. exact C11_Diameter.C11_universal_gap_povms. Qed.
+Print Assumptions C11_universal_gap_povms.
+
+(* A5z'  the FULL universal gap for process tomography (full parametrisation: flattened HS matrix; the gate set is stated through the operator
+   with coefficient vector v in the tensor basis B_a (x) conj B_b, which IS the Choi matrix (A5z''); PSD with trace dd -- dd = d for TP maps) *)
+Theorem C11_universal_gap_gates : forall (F : OF) (d : nat) (B : nat -> cmat F) (dd : F) (P : @vec F -> @vec F)
+    (f : @vec F -> F) (g : @vec F -> @vec F) (mu : F),
+  basis_orthonormal d B -> basis_hermitian d B ->
+  mu <> c0 F -> kle F (c0 F) mu -> C11_obtuse F ((d * d) * (d * d)) (C11_gate_set F d B dd) P ->
+  C11_first_order_convex F ((d * d) * (d * d)) f g ->
+  forall (x : @vec F) (r : F), let y := C11_dir F P g mu x in
+  kle F (c0 F) r ->
+  kle F (cmul F (C11_nrm2 F ((d * d) * (d * d)) y)
+          (cadd F (cmul F (cadd F (c1 F) (c1 F)) (cmul F dd dd)) (cmul F (cadd F (c1 F) (c1 F)) (cmul F dd dd)))) (cmul F r r) ->
+  forall z, C11_gate_set F d B dd z ->
+  kle F (csub F (f x) (f z)) (cadd F (copp F (dot ((d * d) * (d * d)) (g x) y)) (cmul F mu r)).
+Proof. exact C11_Diameter.C11_universal_gap_gates. Qed.
+Print Assumptions C11_universal_gap_gates.
+
+(* A5z''  the operator of the gate set is the Choi matrix of the HS matrix *)
+Theorem C11_gate_set_is_choi : forall (F : OF) (d : nat) (B : nat -> cmat F) (HS : rmat F) (i j : nat),
+  choi_of_hs d B HS i j = op_of_vec (d * d) (bb_basis d B) (vecr (d * d) HS) i j.
+Proof. exact C11_Diameter.C11_choi_as_op. Qed.
+Print Assumptions C11_gate_set_is_choi.
 
 (* A6 (T6)  the squared-error loss  f v = |A v + b - q|^2  with gradient 2 A^T (A v + b - q) is first-order convex (outright) *)
 Theorem C11_squared_error_convex : forall (F : OF) (m n : nat) (A : @mat F) (b q : @vec F),
@@ -338,6 +374,27 @@ Print Assumptions C11_with_sparsity_denote_transpose.
 Theorem C11_transpose_same_psd_constraint : forall (F : OF) (n : nat) (H : cmat F), HPSD n (mT H) <-> HPSD n H.
 Proof. exact C11_Cvx.C11_transpose_hpsd. Qed.
 Print Assumptions C11_transpose_same_psd_constraint.
+
+(* C7  the CVXPY loss expressions (models re-proved equal to the source's value_cvxpy on every run, coq/gen/C11_Equiv.v): with equal schedule
+   ratios c_i = cc they are cc times the identity-weight squared error / relative entropy of the predicted distributions *)
+Theorem C11_cvx_losses_uniform_ratio : forall (F : OF) (ln : F -> F) (eps cc : F) (S : nat) (nout : nat -> nat) (c : nat -> F)
+    (q p : nat -> nat -> F),
+  (forall i, (i < S)%nat -> c i = cc) ->
+  C11_cvx_se F S nout c q p
+    = cmul F cc (sumn S (fun i => sumn (nout i) (fun j => cmul F (csub F (p i j) (q i j)) (csub F (p i j) (q i j)))))
+  /\ C11_cvx_re F ln eps S nout c q p
+    = cmul F cc (sumn S (fun i => sumn (nout i) (fun j =>
+        if C11_gt F (q i j) eps then cmul F (q i j) (csub F (ln (q i j)) (ln (p i j))) else c0 F))).
+Proof. exact C11_Cvx.C11_cvx_uniform_ratio. Qed.
+Print Assumptions C11_cvx_losses_uniform_ratio.
+
+(* C8  the relative-entropy expression does not depend on the predicted probability of an outcome with q <= eps (it is skipped entirely) *)
+Theorem C11_cvx_relative_entropy_skips_unobserved : forall (F : OF) (ln : F -> F) (eps : F) (S : nat) (nout : nat -> nat) (c : nat -> F)
+    (q p p' : nat -> nat -> F),
+  (forall i j, (i < S)%nat -> (j < nout i)%nat -> C11_gt F (q i j) eps = true -> p i j = p' i j) ->
+  C11_cvx_re F ln eps S nout c q p = C11_cvx_re F ln eps S nout c q p'.
+Proof. exact C11_Cvx.C11_cvx_re_skips_unobserved. Qed.
+Print Assumptions C11_cvx_relative_entropy_skips_unobserved.
 
 (* ====================================================================== the hypotheses are satisfiable *)
 (* a convex set with its Euclidean projection (half space of F^2, clipping), in every ordered field *)
